@@ -74,8 +74,12 @@ def coqc_file(relpath, timeout=900):
 
 
 def make(jobs=16, timeout=3000):
+    """full (incremental) .vo build of the development, serialised by a lock"""
     cmd = ["bash", "-c",
-           f"cd {COQDIR} && ( [ -f Makefile ] || coq_makefile -f _CoqProject "
-           f"-o Makefile >/dev/null ) && timeout {timeout} make -j{jobs} 2>&1"]
+           f"cd {COQDIR} && exec 9>.build.lock && flock 9 && "
+           f"python3 {VERIF}/harness/mkcoqproject.py && "
+           f"( [ -f Makefile ] && [ Makefile -nt _CoqProject ] || "
+           f"coq_makefile -f _CoqProject -o Makefile >/dev/null ) && "
+           f"timeout {timeout} make -j{jobs} 2>&1"]
     p = subprocess.run(cmd, capture_output=True, text=True)
     return p.returncode, p.stdout
